@@ -10,17 +10,17 @@ namespace Mb2.Fns
 
 /-- `BytesRef::try_from` (bytes_ref.rs) = `bytesRefTryFrom`: the three checks, in the code's order. `ao` is the value of
     `align_offset(ALIGNMENT)`, which is zero exactly for 8-aligned addresses. -/
-theorem bytes_ref_try_from_eq (p : Profile) (k : HK) (addr len ao : Nat) (hao : ao = 0 ↔ addr % 8 = 0) :
-    evalO p [.int .usize len, .int .usize k.hsize, .int .usize ao] Gen.Fns.bytes_ref_try_from =
+theorem bytes_ref_try_from_eq (p : Profile) (k : HK) (addr len ao : Nat) (bytes : V) (hao : ao = 0 ↔ addr % 8 = 0) :
+    evalO p [.int .usize len, .int .usize k.hsize, .int .usize ao, bytes] Gen.Fns.bytes_ref_try_from =
       some (.ok (match bytesRefTryFrom k addr len with
                  | .error e => .c1 "Err" (encMemErr e)
-                 | .ok () => .c1 "Ok" .unit)) := by
+                 | .ok () => .c1 "Ok" bytes)) := by
   unfold bytesRefTryFrom
   simp [evalO, Gen.Fns.bytes_ref_try_from, eval, binop, arith, hao]
   by_cases h1 : len < k.hsize
   · simp [h1, encMemErr]
   · by_cases h2 : addr % 8 = 0
-    · by_cases h3 : len % 8 = 0 <;> simp [h1, h2, h3, encMemErr]
+    · by_cases h3 : len % 8 = 0 <;> simp [h1, h2, h3, encMemErr, set_other]
     · simp [h1, h2, encMemErr]
 
 /-- the size guard of `DynSizedStructure::ref_from_bytes` (lib.rs): `payload_len() > bytes.len() - size_of::<H>()`;
